@@ -137,6 +137,9 @@ def h_tamper(ctx, kind, how, lmax):
     elif how == "wrong-kind":
         kind2 = ctx.choice("kind2", [x for x in KINDS if x != kind])
         bad = ct
+    if ctx.flag("instance_has_decrypted_a_genuine_file_before"):
+        # the library keeps one cipher object per download worker: what it accepted earlier must not colour a later verdict
+        _dec(c, kind, ct, key)
     try:
         out = _dec(c, kind2, bad, key2)
     except ValueError:
